@@ -157,6 +157,16 @@ impl Session {
 
     async fn call(&mut self, tok: Tok, req: &Req) -> (u16, String) {
         self.api.token = self.real_token(tok);
+        // the server accepts a bearer token wrapped in double quotes (utilities::unquote in every extractor): every fifth
+        // request that carries a real token presents it in that form; the model knows only the token itself
+        if let Tok::T(_) = tok {
+            let n = *self.stats.get("requests-with-token").unwrap_or(&0);
+            self.bump("requests-with-token");
+            if n % 5 == 3 {
+                self.api.token = self.api.token.take().map(|t| format!("\"{}\"", t));
+                self.bump("requests-with-quoted-token");
+            }
+        }
         let un = user_name;
         let dn = db_name;
         let none = "-".to_string();
